@@ -930,8 +930,139 @@ pub fn units() -> Vec<Unit> {
             Fn("Mac::rx_windows"),
         ],
     },
+    // ---- builder W (tie A for the MAC's top-level state machine)
+    // C04 / C07 / C11: the dispatch of `Mac::{join_otaa, join_abp, send, handle_rx, handle_rxc, rx2_complete, get_rx_delay,
+    // is_joined, get_fcnt_up}` over `State::{Joined, Otaa, Unjoined}`.  Abstract: the `Session` / `Otaa` methods the
+    // dispatch calls, the region's `create_tx_config`, `TxConfig::adjust_power` and `Mac::rx_windows` (a record `ops`;
+    // each is regenerated and tied in its own unit: Gen.SessionRx / SessionTx / OtaaFn / MacRfFn) and the carrier types
+    // they move around (a class `Carriers`).  Translated for real: which state accepts which call, `Err(NotJoined)`
+    // otherwise, the state transitions, the power limit of `send`, the delays of `get_rx_delay`.
+    Unit {
+        module: "Gen.MacTopFn",
+        file: "lorawan-device/src/mac/mod.rs",
+        more_files: vec!["lorawan-device/src/radio.rs", "lorawan-encoding/src/types.rs"],
+        imports: vec!["LoraVerif.Gen.Region"],
+        items: vec![
+            ExternEnum("DR"),
+            Enum("Frame"),
+            Enum("Window"),
+            EnumData("Response"),
+            Struct("Configuration"),
+            Struct("BoardEirp"),
+            StructPartial("RfConfig", &["max_payload_len"]),
+            Raw(MAC_TOP_RAW1),
+            ExternStructRaw("Session", &[("fcnt_up", "u32")]),
+            ExternStructRaw("Otaa", &[]),
+            ExternStructRaw("RegionCfg", &[]),
+            ExternStructRaw("RadioBuffer", &[]),
+            ExternStructRaw("Downlink", &[]),
+            ExternStructRaw("RNG", &[]),
+            ExternStructRaw("NetworkCredentials", &[]),
+            ExternStructRaw("NwkSKey", &[]),
+            ExternStructRaw("AppSKey", &[]),
+            ExternStructRaw("DevAddr", &[]),
+            ExternStructRaw("TxConfig", &[]),
+            ExternStructRaw("TxChannel", &[]),
+            ExternStructRaw("RxWindows", &[]),
+            ExternStructRaw("SendData", &[]),
+            Alias("region::Configuration", "RegionCfg"),
+            Alias("radio::TxConfig", "TxConfig"),
+            Alias("region::TxChannel", "TxChannel"),
+            Alias("otaa::Otaa", "Otaa"),
+            EnumData("State"),
+            Struct("Mac"),
+            Raw(MAC_TOP_RAW2),
+            ExternFn("Session::new", "ops.session_new", &[("nwkskey", "NwkSKey"), ("appskey", "AppSKey"), ("devaddr", "DevAddr")], "Session"),
+            ExternFnX("Session::prepare_buffer", "ops.session_prepare_buffer", &[("self", "Session"), ("data", "SendData"), ("tx_buffer", "RadioBuffer"), ("configuration", "Configuration"), ("region", "RegionCfg")], "u32", &["self", "tx_buffer"], true),
+            ExternFnX("Session::handle_rx", "ops.session_handle_rx", &[("self", "Session"), ("region", "RegionCfg"), ("configuration", "Configuration"), ("rx", "RadioBuffer"), ("dl", "[Downlink]"), ("max_payload_len", "u8"), ("snr", "i8"), ("ignore_mac", "bool")], "Response", &["self", "region", "configuration", "rx", "dl"], true),
+            ExternFnX("Session::rx2_complete", "ops.session_rx2_complete", &[("self", "Session"), ("configuration", "Configuration"), ("region", "RegionCfg")], "Response", &["self", "configuration"], true),
+            ExternFn("Otaa::new", "ops.otaa_new", &[("network_credentials", "NetworkCredentials")], "Otaa"),
+            ExternFnX("Otaa::prepare_buffer", "ops.otaa_prepare_buffer", &[("self", "Otaa"), ("rng", "RNG"), ("buf", "RadioBuffer")], "u16", &["self", "rng", "buf"], true),
+            ExternFnX("Otaa::handle_rx", "ops.otaa_handle_rx", &[("self", "Otaa"), ("region", "RegionCfg"), ("configuration", "Configuration"), ("rx", "RadioBuffer")], "Option<Session>", &["self", "region", "configuration", "rx"], true),
+            ExternFnX("Otaa::rx2_complete", "ops.otaa_rx2_complete", &[("self", "Otaa")], "Response", &["self"], false),
+            ExternFnX("RegionCfg::create_tx_config", "ops.create_tx_config", &[("self", "RegionCfg"), ("rng", "RNG"), ("datarate", "DR"), ("frame", "Frame")], "(TxConfig, TxChannel)", &["self", "rng"], true),
+            ExternFnX("TxConfig::adjust_power", "ops.adjust_power", &[("self", "TxConfig"), ("max_power", "u8"), ("antenna_gain", "i8")], "", &["self"], true),
+            ExternFnX("Mac::rx_windows", "Mac.rx_windows ops", &[("self", "Mac"), ("tx_channel", "TxChannel")], "RxWindows", &[], true),
+            Fn("Mac::join_otaa"),
+            Fn("Mac::join_abp"),
+            Fn("Mac::send"),
+            Fn("Mac::get_rx_delay"),
+            Fn("Mac::handle_rx"),
+            Fn("Mac::handle_rxc"),
+            Fn("Mac::rx2_complete"),
+            Fn("Mac::is_joined"),
+            Fn("Mac::get_fcnt_up"),
+        ],
+    },
     ]
 }
+
+/// Lean text of the abstract part of `Gen.MacTopFn`
+const MAC_TOP_RAW1: &str = r#"set_option warn.classDefReducibility false
+/-- the types the dispatch moves around without looking inside: the session, the join state, the region, the radio
+buffer, a delivered downlink, the random generator, credentials and keys, what `create_tx_config` hands out, the
+windows, the application's send request.  `State` and `Mac` hold three of them, hence the instances. -/
+class Carriers where
+  Session : Type
+  Otaa : Type
+  RegionCfg : Type
+  RadioBuffer : Type
+  Downlink : Type
+  RNG : Type
+  NetworkCredentials : Type
+  NwkSKey : Type
+  AppSKey : Type
+  DevAddr : Type
+  TxConfig : Type
+  TxChannel : Type
+  RxWindows : Type
+  SendData : Type
+  [decSession : DecidableEq Session]
+  [reprSession : Repr Session]
+  [decOtaa : DecidableEq Otaa]
+  [reprOtaa : Repr Otaa]
+  [decRegionCfg : DecidableEq RegionCfg]
+  [reprRegionCfg : Repr RegionCfg]
+  /-- the one field of the session the dispatch reads (`get_fcnt_up`) -/
+  fcnt_up : Session → Int
+attribute [instance] Carriers.decSession Carriers.reprSession Carriers.decOtaa Carriers.reprOtaa Carriers.decRegionCfg Carriers.reprRegionCfg
+variable [K : Carriers]
+abbrev Session := K.Session
+abbrev Otaa := K.Otaa
+abbrev RegionCfg := K.RegionCfg
+abbrev RadioBuffer := K.RadioBuffer
+abbrev Downlink := K.Downlink
+abbrev RNG := K.RNG
+abbrev NetworkCredentials := K.NetworkCredentials
+abbrev NwkSKey := K.NwkSKey
+abbrev AppSKey := K.AppSKey
+abbrev DevAddr := K.DevAddr
+abbrev TxConfig := K.TxConfig
+abbrev TxChannel := K.TxChannel
+abbrev RxWindows := K.RxWindows
+abbrev SendData := K.SendData
+def Session.fcnt_up (s : Session) : Int := K.fcnt_up s
+"#;
+const MAC_TOP_RAW2: &str = r#"/-- the methods the dispatch calls (`none` = a panic inside; `&mut` arguments are returned after the result, in
+parameter order): `Session::{new, prepare_buffer, handle_rx, rx2_complete}`, `Otaa::{new, prepare_buffer, handle_rx,
+rx2_complete}`, `region::Configuration::create_tx_config`, `TxConfig::adjust_power`, `Mac::rx_windows` (which reads
+`configuration` and `region` only) -/
+structure Ops where
+  session_new : NwkSKey → AppSKey → DevAddr → Session
+  session_prepare_buffer : Session → SendData → RadioBuffer → Configuration → RegionCfg → Option (Int × Session × RadioBuffer)
+  session_handle_rx : Session → RegionCfg → Configuration → RadioBuffer → List Downlink → Int → Int → Bool →
+    Option (Response × Session × RegionCfg × Configuration × RadioBuffer × List Downlink)
+  session_rx2_complete : Session → Configuration → RegionCfg → Option (Response × Session × Configuration)
+  otaa_new : NetworkCredentials → Otaa
+  otaa_prepare_buffer : Otaa → RNG → RadioBuffer → Option (Int × Otaa × RNG × RadioBuffer)
+  otaa_handle_rx : Otaa → RegionCfg → Configuration → RadioBuffer → Option (Option Session × Otaa × RegionCfg × Configuration × RadioBuffer)
+  otaa_rx2_complete : Otaa → Response × Otaa
+  create_tx_config : RegionCfg → RNG → DR → Frame → Option ((TxConfig × TxChannel) × RegionCfg × RNG)
+  adjust_power : TxConfig → Int → Int → Option TxConfig
+  rx_windows : Configuration → RegionCfg → TxChannel → Option RxWindows
+variable (ops : Ops)
+def Mac.rx_windows (self : Mac) (tx_channel : TxChannel) : Option RxWindows := ops.rx_windows self.configuration self.region tx_channel
+"#;
 
 /// Lean text of the abstract part of `Gen.MacRfFn`
 const MAC_RF_RAW: &str = r#"/-- what the three methods observe of `region::Configuration`: the four lookups they call
